@@ -150,7 +150,7 @@ fn run_shape(sh: &Shape) -> world::WorldResult<ShapeOut> {
       Tr::Zmtp => {
         let _l = stack::link_pair(&a, &b, 1 << 16).await;
         settle_n(4).await;
-        std::mem::forget(_l);
+        mc_core::world::keep(_l);
       }
       Tr::Inproc => {
         b.bind("inproc://c02").await.expect("bind");
@@ -394,7 +394,7 @@ fn run_script(rt: RxType, tr: Tr, script: &[Ev]) -> world::WorldResult<ScriptOut
         match tr {
           Tr::Zmtp => {
             let l = stack::link_pair(&p, &r, 1 << 16).await;
-            std::mem::forget(l);
+            mc_core::world::keep(l);
           }
           Tr::Inproc => p.connect("inproc://c02s").await.expect("connect"),
         }
@@ -574,7 +574,7 @@ pub fn run(tier: Tier) -> Report {
   });
   rep.add(sub);
   // (b)
-  let scripts = all_scripts(tier.pick(5, 6));
+  let scripts = all_scripts(tier.pick(5, 8));
   let mut combos = vec![];
   for rt in [RxType::Pull, RxType::Router, RxType::Dealer, RxType::Sub] {
     for tr in [Tr::Zmtp, Tr::Inproc] {
@@ -588,7 +588,7 @@ pub fn run(tier: Tier) -> Report {
   }
   let mut sub = Sub::new("interleaving", "E3");
   sub.rule = "case = one world running one event script over {P1 sends a 3-frame message, P2 attaches, P2 detaches, P2 sends, recv(), recv_multipart()} with quiescence after every event, then a frame-by-frame drain; non-trivial = an attach/detach/other-peer send happens between two receive calls; oracle: the frames seen by the application, cut at frames without MORE, are whole sent messages; all of P1's arrive in order; ROUTER envelopes name the true sender".into();
-  sub.bounds = json!({"depth": tier.pick(5, 6), "scripts": scripts.len(), "worlds": combos.len(), "receivers": ["PULL", "ROUTER", "DEALER", "SUB"]});
+  sub.bounds = json!({"depth": tier.pick(5, 8), "scripts": scripts.len(), "worlds": combos.len(), "receivers": ["PULL", "ROUTER", "DEALER", "SUB"]});
   par::enumerate(&mut sub, combos.len(), |i| {
     let (rt, tr, si) = combos[i];
     let script = &scripts[si];
